@@ -13,4 +13,6 @@ var checks = map[string]check{
 		Floors: map[string]int64{"c15.messages": 5000, "c15.topics": 1000, "c15ctl.probes_served": 200}},
 	"C06": {ID: "C06", Level: "exploration", Units: []unit{u("hcore", "c06", 10, 16)},
 		Floors: map[string]int64{"c06.sessions": 100, "c06.duplicate_party_sessions": 5}},
+	"C12": {ID: "C12", Level: "exploration", Units: []unit{u("hcore", "c12", 12, 16), u("hcore", "c12silent", 2, 4)},
+		Floors: map[string]int64{"c12.ops": 300, "c12.held_windows": 20, "c12silent.reuse_sessions": 2}},
 }
